@@ -1494,13 +1494,18 @@ func (r *Redis) ScriptLoad(script string) (string, error) {
 
 // ScriptLoadCtx 将脚本 script 添加到脚本缓存中，但并不立即执行这个脚本。
 // 返回脚本的 sha1 校验码。
-func (r *Redis) ScriptLoadCtx(ctx context.Context, script string) (string, error) {
-	node, err := getRedis(r)
-	if err != nil {
-		return "", err
-	}
+func (r *Redis) ScriptLoadCtx(ctx context.Context, script string) (val string, err error) {
+	err = r.brk.DoWithAcceptable(func() error {
+		node, err := getRedis(r)
+		if err != nil {
+			return err
+		}
 
-	return node.ScriptLoad(ctx, script).Result()
+		val, err = node.ScriptLoad(ctx, script).Result()
+		return err
+	}, acceptable)
+
+	return
 }
 
 // Set 设置 key 的值。
